@@ -5,7 +5,7 @@ set -eu
 ID=$1; DEST=$2; ROUND=$3; CHANGE=$4; NEEDS=$5; RESULT=$6
 S=${WT:-/tmp/wt5}/$ID/_seed; D=/verif/seeded/$DEST
 mkdir -p $D
-cp $S/patch.diff $D/; [ -e $S/NOTES.md ] && cp $S/NOTES.md $D/
+cp $S/patch.diff $D/; [ -e $S/patch.rebased.diff ] && cp $S/patch.rebased.diff $D/; [ -e $S/NOTES.md ] && cp $S/NOTES.md $D/
 for f in $S/*_test.go; do [ -e "$f" ] && cp $f $D/$(basename $f).txt; done
 python3 - "$D" "${ID:0:3}" "$ROUND" "$CHANGE" "$NEEDS" "$RESULT" "${WT:-/tmp/wt5}" "$ID" <<'PY'
 import json,sys
